@@ -262,12 +262,16 @@ example :
 
 /-! ## the conclusion of the property is an equivalence relation -/
 
+/-- **C08.sameOutcome_refl** — "same package up to the numbering of generated names" (and "both refused with the same
+exception class") relates every outcome to itself … -/
 theorem sameOutcome_refl (strict : Bool) (o : Outcome) : SameOutcome strict o o := by
   cases o <;> cases strict <;> simp [SameOutcome, SamePackage, SamePackageUpToDiag]
 
+/-- … is symmetric … -/
 theorem sameOutcome_symm (strict : Bool) (a b : Outcome) (h : SameOutcome strict a b) : SameOutcome strict b a := by
   cases a <;> cases b <;> cases strict <;> simp_all [SameOutcome, SamePackage, SamePackageUpToDiag, eq_comm]
 
+/-- … and transitive: comparing every variant with the base query compares all variants with each other. -/
 theorem sameOutcome_trans (strict : Bool) (a b c : Outcome) (h1 : SameOutcome strict a b) (h2 : SameOutcome strict b c) :
     SameOutcome strict a c := by
   cases a <;> cases b <;> cases c <;> cases strict <;> simp_all [SameOutcome, SamePackage, SamePackageUpToDiag]
